@@ -1,6 +1,7 @@
 package main
 
 import (
+	"go/types"
 	"context"
 	"fmt"
 	"os"
@@ -121,6 +122,9 @@ func (vc *VC) smtText(o *Obl, cover bool) string {
 	}
 	for _, d := range vc.decls {
 		b.WriteString(d + "\n")
+	}
+	for _, a := range vc.allocFrameAxioms(o.NFacts, names) {
+		b.WriteString("(assert " + a + ")\n")
 	}
 	for _, f := range vc.facts[:o.NFacts] {
 		b.WriteString("(assert " + f + ")\n")
@@ -278,4 +282,95 @@ func sortResults(rs []*Result) {
 		}
 		return rs[i].Obl.Name < rs[j].Obl.Name
 	})
+}
+
+// allocFrameAxioms: a spec function applied to objects that existed before
+// a call has the same value before and after the call when every heap it
+// reads was changed by that call at most at objects the call allocated.
+// (Objects that existed before the call only refer to objects that existed
+// before it - the well-formedness assumption every load already makes - so
+// the evaluation of the function never reaches a new object.)  The axiom is
+// triggered by the post-call term and yields the pre-call term, which is
+// what E-matching needs to connect facts known before the call with goals
+// stated after it.  Functions whose body quantifies over references are
+// excluded (a new object could be a witness).
+func (vc *VC) allocFrameAxioms(nfacts int, specs []string) []string {
+	var out []string
+	eng := vc.eng
+	for _, ev := range vc.allocEvents {
+		if ev.nfacts > nfacts {
+			continue
+		}
+		for _, n := range specs {
+			si := eng.specs[n]
+			if si == nil || !si.done || len(si.deps) == 0 || si.refQuant {
+				continue
+			}
+			uses := false
+			ok := true
+			for _, h := range si.deps {
+				if ev.modified[h] {
+					ok = false
+					break
+				}
+				if _, t := ev.trans[h]; t {
+					uses = true
+				}
+			}
+			if !ok || !uses {
+				continue
+			}
+			var binders, conds, oldArgs, newArgs []string
+			for _, h := range si.deps {
+				if t, isT := ev.trans[h]; isT {
+					oldArgs = append(oldArgs, t[0])
+					newArgs = append(newArgs, t[1])
+				} else {
+					cur, has := ev.cur[h]
+					if !has {
+						// never materialised up to the event: its initial constant, if declared
+						cur = sanitize(h) + "@0"
+						if _, isDecl := vc.declared[cur]; !isDecl {
+							ok = false
+							break
+						}
+					}
+					oldArgs = append(oldArgs, cur)
+					newArgs = append(newArgs, cur)
+				}
+			}
+			if !ok {
+				continue
+			}
+			for i, ps := range si.psorts {
+				bn := fmt.Sprintf("a!%d", i)
+				binders = append(binders, fmt.Sprintf("(%s %s)", bn, ps))
+				oldArgs = append(oldArgs, bn)
+				newArgs = append(newArgs, bn)
+				switch si.ptypes[i].Underlying().(type) {
+				case *types.Pointer, *types.Map, *types.Chan, *types.Signature:
+					conds = append(conds, app("<=", bn, ev.bound))
+				case *types.Slice:
+					conds = append(conds, app("<=", sArr(bn), ev.bound))
+				case *types.Interface:
+					conds = append(conds, app("<=", "(i-val "+bn+")", ev.bound))
+				case *types.Struct:
+					ok = false
+				}
+			}
+			if !ok || len(binders) == 0 {
+				continue
+			}
+			fnames := []string{n}
+			if si.sf.Kind == "rec" {
+				fnames = append(fnames, n+"$L")
+			}
+			for _, fname := range fnames {
+				nt := app(fname, newArgs...)
+				ot := app(fname, oldArgs...)
+				out = append(out, fmt.Sprintf("(forall (%s) (! (=> %s (= %s %s)) :pattern (%s)))", strings.Join(binders, " "), and(conds...), nt, ot, nt))
+			}
+		}
+	}
+	return out
 }
